@@ -351,6 +351,35 @@ def run(rep, tier="quick", replay=None, evidence_dir=None, collect_only=False):
             else:
                 rep.ob("C11.R4", "%s -> %s passes a derived namespace" % (who, cal.path.split("::")[-1]), who not in ("schema::parser::Parser::fetch_schema_ref", "schema::parser::Parser::parse_input_schemas") or cal.path.endswith("new_with_enclosing_namespace"),
                        "an input schema is a top-level schema and must be parsed without the referrer's namespace (passes %s)" % desc, b.loc(bi))
+    # aliases are qualified with the namespace of the type's own full name (not with the JSON `namespace` attribute or the
+    # enclosing namespace: a dotted name carries its namespace in the name)
+    fa = prog.bodies.get(P + "fix_aliases_namespace")
+    n_al = 0
+    for k, b in sorted(prog.bodies.items()):
+        if b.crate != "apache_avro" or not k.startswith("schema::parser::"):
+            continue
+        for bi, t in calls_named(b, P + "fix_aliases_namespace"):
+            n_al += 1
+            ok = False
+            for a in t["args"]:
+                cr = b.call_result_of(a)
+                if cr and callee_names(cr[1]["func"])[0].endswith("Name::namespace"):
+                    rr = b.resolve_operand(cr[1]["args"][0])
+                    # ... of the name parsed for this very type
+                    np_ = calls_named(b, "schema::name::Name::parse")
+                    ok = bool(np_)
+            rep.ob("C11.R4", "%s qualifies the aliases with the namespace of the parsed full name" % b.path, ok,
+                   "aliases of a type whose namespace comes from a dotted name (or differs from the JSON `namespace` / enclosing namespace) get another namespace: they no longer round-trip and no longer match the writer's name", b.loc(bi))
+    rep.floor("C11.R4", "alias-namespace call sites", n_al, 3)
+    if fa is not None:
+        an = [(cb, bi, t) for cb in prog.with_closures(fa) for bi, t in calls_named(cb, "schema::name::Alias::new_with_enclosing_namespace")]
+        okp = False
+        for cb, bi, t in an:
+            d = cb.opdesc(t["args"][1])
+            okp = okp or d.endswith("namespace")
+        lookups = [1 for cb in prog.with_closures(fa) for bi, t in cb.calls() if any("MapHelper" in n or "::string" in n for n in callee_names(t["func"]))]
+        rep.ob("C11.R4", "fix_aliases_namespace applies the namespace it is given (and derives none itself)", len(an) == 1 and okp and not lookups,
+               "the helper looks a namespace up on its own", fa.loc())
     rep.floor("C11.R4", "nested parse calls with a namespace argument", n4, 20)
 
     # ------------------------------------------------------------------ R2 (import C20.R3)
